@@ -104,6 +104,9 @@ func plan(tier string, seed int64) []run.Batch {
 		for i := 0; i < 4; i++ {
 			add("clientlog", []string{"", "race"}[i%2], 40, i)
 		}
+		for i := 0; i < 3; i++ {
+			add("bigdump", "", 1, i)
+		}
 		for i := 0; i < 16; i++ {
 			add("seq", "race", 1250, i)
 		}
@@ -120,6 +123,7 @@ func plan(tier string, seed int64) []run.Batch {
 	}
 	add("prodscale", "", 1, 0)
 	add("clientlog", "", 25, 0)
+	add("bigdump", "", 1, 0)
 	for i := 0; i < 8; i++ {
 		add("seq", "race", 500, i)
 	}
@@ -141,6 +145,8 @@ func child(b run.Batch, r *ev.Result) {
 		childProdScale(b, r)
 	case "clientlog":
 		childClientLog(b, r)
+	case "bigdump": // plain build: under the race detector a dump of ten thousand lines takes long enough to starve the batch
+		bigDump(b, r, rand.New(rand.NewSource(b.Seed)))
 	case "seq":
 		childSeq(b, r)
 	case "conc":
@@ -1451,7 +1457,6 @@ func childConc(b run.Batch, r *ev.Result) {
 	if b.Tier == "thorough" {
 		opsPer = 12000
 	}
-	bigDump(b, r, rng)
 	for round := 0; round < b.N; round++ {
 		c := cfgs[(round+int(b.Seed))%len(cfgs)]
 		if round >= len(cfgs) {
